@@ -709,8 +709,22 @@ type stubShard struct {
 	runs  *atomic.Int64
 }
 
+// shardFault is carried by a request's context: what every stub shard does for that request.
+type shardFaultKey struct{}
+
+func shardFault(ctx context.Context) string {
+	f, _ := ctx.Value(shardFaultKey{}).(string)
+	return f
+}
+
 func (s *stubShard) Search(ctx context.Context, q query.Q, opts *zoekt.SearchOptions) (*zoekt.SearchResult, error) {
 	s.runs.Add(1)
+	switch shardFault(ctx) {
+	case "shard-panic":
+		panic("verif: stub shard panics in Search")
+	case "shard-error":
+		return nil, fmt.Errorf("verif: stub shard fails in Search")
+	}
 	if s.delay > 0 {
 		select {
 		case <-ctx.Done():
@@ -726,6 +740,12 @@ func (s *stubShard) Search(ctx context.Context, q query.Q, opts *zoekt.SearchOpt
 }
 
 func (s *stubShard) List(ctx context.Context, q query.Q, opts *zoekt.ListOptions) (*zoekt.RepoList, error) {
+	switch shardFault(ctx) {
+	case "shard-panic":
+		panic("verif: stub shard panics in List")
+	case "shard-error":
+		return nil, fmt.Errorf("verif: stub shard fails in List")
+	}
 	return &zoekt.RepoList{Repos: []*zoekt.RepoListEntry{{Repository: zoekt.Repository{Name: s.name, ID: s.id}}}}, nil
 }
 func (s *stubShard) Close()         {}
@@ -911,6 +931,132 @@ func runE2E(cfg e2eCfg) (goVerdict, key string, stats map[string]int) {
 
 // ---------------------------------------------------------------------------------------------------------------
 
+// ---------------------------------------------------------------------------------------------------------------
+// faults: searches that end by a fault between Acquire and Release
+//
+// "Every acquired slot is released exactly once, whether the search finishes, ..." - a search also finishes when
+// something on its request goroutine panics (the client's encoder inside sender.Send, the display truncator on a corrupt
+// chunk; net/http recovers per request and the server lives on), when a shard panics (recovered per shard) or fails.
+// The scenario sends such requests through the real Search / StreamSearch / List, recovers where a server would, and
+// then looks at the scheduler: nothing may be held or queued, and the next requests must be admitted.
+
+type faultCfg struct {
+	Cap           int64  `json:"cap"`
+	Batchdiv      int    `json:"batchdiv"`
+	InteractiveUs int    `json:"interactive_us"`
+	Shards        int    `json:"shards"`
+	Requests      int    `json:"requests"`
+	Seed          uint64 `json:"seed"`
+}
+
+var faultKinds = []string{"send1", "send2", "send-files", "send-files", "flush", "shard-panic", "shard-error", "shard-panic", "none"}
+
+// faultSender panics at the chosen event of the stream.
+type faultSender struct {
+	kind  string
+	n     int
+	files int
+}
+
+func (f *faultSender) Send(r *zoekt.SearchResult) {
+	f.n++
+	f.files += len(r.Files)
+	switch {
+	case f.kind == "send1" && f.n == 1, // the initial stats event
+		f.kind == "send2" && f.n == 2,
+		(f.kind == "send-files" || f.kind == "flush") && len(r.Files) > 0:
+		panic("verif: sender fails while streaming (" + f.kind + ")")
+	}
+}
+
+func runFaults(cfg faultCfg) (goVerdict, key string, stats map[string]int) {
+	vs := search.VerifNewShardedSearcherSched(cfg.Cap, cfg.Batchdiv, time.Duration(cfg.InteractiveUs)*time.Microsecond)
+	var runs atomic.Int64
+	shards := map[string]zoekt.Searcher{}
+	for i := 0; i < cfg.Shards; i++ {
+		shards[fmt.Sprintf("k%03d", i)] = &stubShard{name: fmt.Sprintf("r%03d", i), id: uint32(i + 1), runs: &runs}
+	}
+	vs.Replace(shards)
+	vs.MarkReady()
+	sched := vs.Sched()
+	ss := vs.Streamer()
+	r := gen.NewRand(cfg.Seed)
+	stats = map[string]int{}
+	q := &query.Substring{Pattern: "needle"}
+	var trail []string
+	for i := 0; i < cfg.Requests; i++ {
+		api := gen.Pick(r, []string{"stream", "stream", "stream", "search", "list"})
+		kind := gen.Pick(r, faultKinds)
+		if api != "stream" && !strings.HasPrefix(kind, "shard") {
+			kind = gen.Pick(r, []string{"shard-panic", "shard-error", "none"})
+		}
+		trail = append(trail, api+":"+kind)
+		ctx, cancel := context.WithTimeout(context.Background(), 5*time.Second)
+		if strings.HasPrefix(kind, "shard") {
+			ctx = context.WithValue(ctx, shardFaultKey{}, kind)
+		}
+		opts := &zoekt.SearchOptions{}
+		if kind == "flush" {
+			opts.FlushWallTime = time.Hour // results stay in the collect sender until the final flush
+		}
+		panicked := func() (p bool) {
+			defer func() { // where a server recovers: above the searcher
+				if e := recover(); e != nil {
+					p = true
+				}
+			}()
+			switch api {
+			case "stream":
+				_ = ss.StreamSearch(ctx, q, opts, &faultSender{kind: kind})
+			case "search":
+				_, _ = ss.Search(ctx, q, opts)
+			case "list":
+				_, _ = ss.List(ctx, &query.Const{Value: true}, nil)
+			}
+			return false
+		}()
+		cancel()
+		if panicked {
+			stats["faults:request-goroutine-panics"]++
+		}
+		stats["faults:"+kind]++
+		// the request is over: the scheduler must be empty again (requests are issued one at a time)
+		if sn := sched.Snapshot(); sn.CurI != 0 || sn.CurB != 0 || sn.WaitI != 0 || sn.WaitB != 0 {
+			return fmt.Sprintf("after requests %v ended (the last one by %s): %d interactive / %d batch slots held, %d+%d queued, although no search is running",
+				trail, kind, sn.CurI, sn.CurB, sn.WaitI, sn.WaitB), "leak-at-quiescence", stats
+		}
+	}
+	// and through the API: `capacity` further requests of each kind are admitted and complete
+	for i := int64(0); i < cfg.Cap; i++ {
+		ctx, cancel := context.WithTimeout(context.Background(), 3*time.Second)
+		var cs collectSender
+		err := ss.StreamSearch(ctx, q, &zoekt.SearchOptions{}, &cs)
+		if err == nil && cs.files != cfg.Shards {
+			err = fmt.Errorf("%d files, want %d", cs.files, cfg.Shards)
+		}
+		if err == nil {
+			var rl *zoekt.RepoList
+			if rl, err = ss.List(ctx, &query.Const{Value: true}, nil); err == nil && len(rl.Repos) != cfg.Shards {
+				err = fmt.Errorf("%d repos, want %d", len(rl.Repos), cfg.Shards)
+			}
+		}
+		cancel()
+		if err != nil {
+			return fmt.Sprintf("after requests %v: the next request is not served although no search is running: %v", trail, err), "leak-at-quiescence", stats
+		}
+	}
+	return "", "", stats
+}
+
+func emitFaults(w *gen.Writer, cfg faultCfg, class string) {
+	g, key, stats := runFaults(cfg)
+	for k, v := range stats {
+		w.Count(k, v)
+	}
+	w.Emit(gen.Case{Go: g, Key: key, Class: class, Nontrivial: stats["faults:request-goroutine-panics"] > 0,
+		Detail: gen.Detail(map[string]any{"kind": "faults", "case": cfg, "stats": stats})})
+}
+
 type stored struct {
 	Kind  string          `json:"kind"`
 	Case  json.RawMessage `json:"case"`
@@ -933,6 +1079,10 @@ func runStored(w *gen.Writer, st stored, class string) {
 		var cfg e2eCfg
 		json.Unmarshal(st.Case, &cfg)
 		emitE2E(w, cfg, class)
+	case "faults":
+		var cfg faultCfg
+		json.Unmarshal(st.Case, &cfg)
+		emitFaults(w, cfg, class)
 	}
 }
 
@@ -1046,6 +1196,11 @@ func main() {
 		cfg := traceCfg{Cap: int64(r.Range(1, 4)), Batchdiv: gen.Pick(r, []int{0, 1, 2, 4}), Workers: r.Range(2, 12),
 			Rounds: r.Range(3, 25), Seed: r.U64()}
 		emitTrace(w, cfg, "trace")
+	}
+
+	for i := 0; i < f.N(60, 1500); i++ {
+		emitFaults(w, faultCfg{Cap: int64(r.Range(1, 3)), Batchdiv: gen.Pick(r, []int{0, 1, 2}), InteractiveUs: gen.Pick(r, []int{0, 0, 50, 3600000000}),
+			Shards: r.Range(1, 6), Requests: r.Range(2, 8), Seed: r.U64()}, "faults")
 	}
 
 	ne := f.N(12, 100)
